@@ -160,6 +160,42 @@ void scen_int(hx::Desc& d, int part) {
     SIM_CHECK((long)seen.size() == expect, "oracle:chunk-out-of-bounds", "%zu distinct indices visited, expected %ld", seen.size(), expect);
 }
 
+// Index form over a span close to the whole value range of the index type ("every range size ... to the largest
+// representable"): few iterations, huge steps; unsigned index types of 16, 32 and 64 bits.
+template <class I> void index_wide(hx::Desc& d, int part, const char* tname) {
+    const I maxv = ~(I)0;
+    int iters = (int)sim::draw_range(1, 300, "wide_iters");
+    I step = (I)(maxv / (I)iters); if (step > 1 && sim::draw_bool("wide_step_smaller")) step = (I)(step - (I)sim::draw((uint64_t)(step > 1000 ? 1000 : step - 1), "wide_step_adj"));
+    if (step == 0) step = 1;
+    I first = (I)sim::draw(3, "wide_first");
+    I last = sim::draw(3, "wide_last") == 0 ? (I)(maxv - (I)sim::draw(3, "wide_last_adj")) : (I)(first + (I)(step * (I)(iters - 1)) + 1 + (I)sim::draw((uint64_t)(step > 1 ? step - 1 : 1), "wide_slack"));
+    if (last < first) last = maxv;
+    // iteration count as the sequential loop has it (no overflow: stop when the next index would pass last)
+    std::vector<unsigned long long> expect;
+    for (I i = first; i < last;) { expect.push_back((unsigned long long)i); if (expect.size() > 70000) break; if ((I)(last - i) <= step) break; i = (I)(i + step); }
+    if (expect.size() > 70000) { last = (I)(first + step * (I)200 + 1); expect.clear(); for (I i = first; i < last;) { expect.push_back((unsigned long long)i); if ((I)(last - i) <= step) break; i = (I)(i + step); } }
+    d.add(hx::fmt("parallel_for<%s>(first=%llu,last=%llu,step=%llu) %s: %zu iterations", tname, (unsigned long long)first, (unsigned long long)last, (unsigned long long)step, kPart[part], expect.size()));
+    d.publish();
+    std::map<unsigned long long, int> seen;
+    tbb::affinity_partitioner ap;
+    auto f = [&](I i) { seen[(unsigned long long)i]++; sim::upoint(); SIM_CHECK(seen.size() <= expect.size() + 8, "oracle:chunk-out-of-bounds", "the body is called for more distinct indices than the loop has"); };
+    switch (part) {
+    case 0: tbb::parallel_for(first, last, step, f, tbb::simple_partitioner()); break;
+    case 1: tbb::parallel_for(first, last, step, f, tbb::auto_partitioner()); break;
+    case 2: tbb::parallel_for(first, last, step, f, tbb::static_partitioner()); break;
+    default: tbb::parallel_for(first, last, step, f, ap); break;
+    }
+    for (unsigned long long i : expect) SIM_CHECK(seen[i] == 1, "oracle:visit-count", "index %llu visited %d times (loop of %zu iterations over nearly the whole range of %s)", i, seen[i], expect.size(), tname);
+    SIM_CHECK(seen.size() == expect.size(), "oracle:chunk-out-of-bounds", "%zu distinct indices visited, expected %zu", seen.size(), expect.size());
+}
+void scen_int_wide(hx::Desc& d, int part) {
+    switch (sim::draw(3, "wide_type")) {
+    case 0: index_wide<unsigned short>(d, part, "unsigned short"); break;
+    case 1: index_wide<unsigned>(d, part, "unsigned"); break;
+    default: index_wide<size_t>(d, part, "size_t"); break;
+    }
+}
+
 void scen_nd(hx::Desc& d, int part) {
     int dims = (int)sim::draw_range(2, 3, "dims");
     int kind = (int)sim::draw(2, "ndkind");   // 0: blocked_range2d/3d, 1: blocked_nd_range
@@ -315,7 +351,7 @@ SIM_SCENARIO(scen_c05, "c05", "C05", 6000000, 30000) {
     auto work = [&] {
         switch (kind) {
         case 0: case 1: case 2: scen_1d(d, part); break;
-        case 3: scen_int(d, part); break;
+        case 3: if (sim::draw(3, "int_wide") == 0) scen_int_wide(d, part); else scen_int(d, part); break;
         case 4: case 5: if (sim::draw(3, "nd_huge") == 0) scen_nd_huge(d, part); else scen_nd(d, part); break;
         case 6: scen_for_each(d); break;
         default: scen_invoke(d); break;
